@@ -468,7 +468,9 @@ def _unwind_guarded(b, bb, glocals):
     alive = False
     for g in glocals:
         for (db, si, kd, pl) in b.defs().get(g, []):
-            if kd == "call" and b.dominates(db, bb) and db != bb:
+            # (the guard is obtained from a constructor function, or built in place: `let _guard = CompleteOnPanic(&flag)`)
+            if (kd == "call" and b.dominates(db, bb) and db != bb) or \
+                    (kd == "assign" and pl.get("k") == "aggregate" and b.dominates(db, bb)):
                 # moved-away blocks: blocks using `move _g` as an operand
                 moved = set()
                 for bi2, blk2 in enumerate(b.blocks):
